@@ -33,12 +33,12 @@ import (
 )
 
 var (
-	erc20ABI    = erc20contracts.ERC20MinterBurnerDecimalsContract.ABI
-	endpointABI = endpointcontract.EndpointContract.ABI
-	executeABI  = endpointcontract.ExecuteContract.ABI
-	agentABI    = agentcontract.AgentContract.ABI
-	agentAddr   = agentcontract.AgentContractAddress
-	packetABI   = packetcontract.PacketContract.ABI
+	erc20ABI     = erc20contracts.ERC20MinterBurnerDecimalsContract.ABI
+	endpointABI  = endpointcontract.EndpointContract.ABI
+	executeABI   = endpointcontract.ExecuteContract.ABI
+	agentABI     = agentcontract.AgentContract.ABI
+	agentAddr    = agentcontract.AgentContractAddress
+	packetABI    = packetcontract.PacketContract.ABI
 	endpointAddr = endpointcontract.EndpointContractAddress
 	packetAddr   = packetcontract.PacketContractAddress
 	executeAddr  = common.HexToAddress("0x0000000000000000000000000000000020000003")
@@ -62,53 +62,53 @@ type token struct {
 	Origin   int            // chain index where it is the origin asset
 	IsNative bool
 	// for wrapped tokens: origin chain and origin token address
-	Wrapped    bool
-	OriChain   int
-	OriToken   common.Address
-	OriIsNat   bool
+	Wrapped  bool
+	OriChain int
+	OriToken common.Address
+	OriIsNat bool
 }
 
 type xchain struct {
 	*node.Chain
-	idx     int
-	skew    time.Duration
-	stallTo time.Time
-	mempool []*intent
-	origin  *token            // ERC-20 originated here
-	native  *token            // native coin of this chain (address 0)
-	wrapped map[string]*token // key "<orichain>/<oritoken lower hex>" -> wrapped token here
-	counter common.Address    // helper contract
-	cbCounter common.Address  // callback helper contract
+	idx       int
+	skew      time.Duration
+	stallTo   time.Time
+	mempool   []*intent
+	origin    *token            // ERC-20 originated here
+	native    *token            // native coin of this chain (address 0)
+	wrapped   map[string]*token // key "<orichain>/<oritoken lower hex>" -> wrapped token here
+	counter   common.Address    // helper contract
+	cbCounter common.Address    // callback helper contract
 	// light-client model: heights of counterparty chains this chain accepted itself
 	accepted map[int]map[uint64]bool
 	// gov actor
 	pendingVotes []uint64
-	lastBal  map[string]*big.Int
-	crashAt  int
-	crashIdx int
-	forwarder  common.Address
-	pendingAdv int
-	proposals  []*govInfo
-	registry   map[string]map[string]string // relayer address -> chain name -> the address registered for the relayer on that chain
-	tssName    string
+	lastBal      map[string]*big.Int
+	crashAt      int
+	crashIdx     int
+	forwarder    common.Address
+	pendingAdv   int
+	proposals    []*govInfo
+	registry     map[string]map[string]string // relayer address -> chain name -> the address registered for the relayer on that chain
+	tssName      string
 }
 
 type world struct {
-	rec      *kernel.Rec
-	cfg      map[string]int64
-	now      time.Time
-	chains   []*xchain
-	gov      *node.Account
-	relayers []*node.Account
-	users    []*node.Account
-	adv      *node.Account
-	tss      *node.Account
-	m        *model
-	wire     []*wireMsg
-	history  []*relayMsg
-	partition map[[2]int]time.Time // (relayer, chain) -> until
+	rec         *kernel.Rec
+	cfg         map[string]int64
+	now         time.Time
+	chains      []*xchain
+	gov         *node.Account
+	relayers    []*node.Account
+	users       []*node.Account
+	adv         *node.Account
+	tss         *node.Account
+	m           *model
+	wire        []*wireMsg
+	history     []*relayMsg
+	partition   map[[2]int]time.Time // (relayer, chain) -> until
 	nextCorrupt *corruption
-	settled bool
+	settled     bool
 }
 
 func (w *world) chainByName(name string) *xchain {
@@ -167,11 +167,11 @@ func newWorld(cfg map[string]int64, rec *kernel.Rec) (*world, error) {
 		}
 		rev := 1 + (cfg["rev_off"]+int64(i)*3)%5
 		c := node.NewChain(node.Config{
-			ChainID:     fmt.Sprintf("teleport_%d-%d", 9000+i, rev),
-			Name:        chainName(cfg, i),
-			GenesisTime: w.now,
-			Validators:  vals,
-			Accounts:    accounts,
+			ChainID:      fmt.Sprintf("teleport_%d-%d", 9000+i, rev),
+			Name:         chainName(cfg, i),
+			GenesisTime:  w.now,
+			Validators:   vals,
+			Accounts:     accounts,
 			VotingPeriod: 20 * time.Second,
 		})
 		if c.Halted != "" {
